@@ -36,6 +36,8 @@ def gen_history(rng):
             else:
                 carrier = rng.choice([c for c in S.carriers_for(vals, rng) if c not in ('nested', 'arr2d') and (n == 0 or c.startswith('arr:') or c in ('list', 'tuple', 'list_str'))])
                 steps.append({'op': 'write', 'route': route, 'vals': vals, 'carrier': carrier})
+        elif k < 0.66 and n > 0:
+            steps.append({'op': 'empty_write', 'sel': rng.choice(['slice', 'mask', 'index_list'])})
         elif k < 0.8:
             steps.append({'op': 'reset'})
         else:
@@ -80,6 +82,13 @@ def run_history(h, res):
                 x.reset()
                 obs.append({'flags': lib.status3(x), 'extp': x.status.get('extended_prec', 'MISSING'), 'events': list(rec.log)})
                 msteps.append([1])
+            elif st['op'] == 'empty_write':
+                # a write through an EMPTY selection stores nothing: no condition occurred, so no flag and no callback
+                before = (lib.status3(x), lib.codes_of(x))
+                sel = slice(1, 1) if st['sel'] == 'slice' else (np.zeros(h['n'], dtype=bool) if st['sel'] == 'mask' else [])
+                x[sel] = float(2.0 ** (nw - nf + 3)) + 0.3 * 2.0 ** -nf
+                st['_empty'] = (before, (lib.status3(x), lib.codes_of(x)), list(rec.log))
+                obs.append(None); msteps.append(None)
             elif st['op'] == 'write':
                 vals = st['vals']
                 if st['route'] == 'setitem':
@@ -128,6 +137,11 @@ def compare(h, req_obs, out, res):
     trace = rd.lst(lambda: (tuple(rd.b() for _ in range(4)), rd.lst(rd.z)))
     ti = 0
     for st, ob in zip(h['steps'], obs):
+        if st['op'] == 'empty_write':
+            b_, a_, ev_ = st.pop('_empty')
+            if a_ != b_ or ev_:
+                res.fail(h, 'C04: a write through an EMPTY selection (nothing is stored) raised flags, changed codes or invoked callbacks', expected=(b_, []), got=(a_, ev_)); return
+            continue
         if st['op'] == 'arith':
             xin, yin, zin, z2in = st.pop('_prop')
             un = st.pop('_unary')
